@@ -394,7 +394,7 @@ func loadContractFile(path string, prefixed bool, pkgPath string) (*ContractSet,
 				}
 			case "modifies":
 				cur.HasMod = true
-				for _, p := range strings.Split(rc.text, ",") {
+				for _, p := range splitTop(rc.text) {
 					if p = strings.TrimSpace(p); p != "" && p != "nothing" {
 						cur.Modifies = append(cur.Modifies, p)
 					}
